@@ -77,6 +77,13 @@ def check(chk):
     from .c01 import _Relabel as _RLq
     _c14q._query_mutates(_RLq(chk, "HIST.query_mutates", "AGREE.query_mutates"))
     _agree(chk)
+    # the rotators' transform applies to the projections the operator fit applied to the scores: the inverse conjugate
+    # transpose of the rotation matrix obtained through the shared helper (rule shared with C11.PAIR.scores)
+    from . import c11 as _c11
+    for cname, spec in _c11.ROTATORS.items():
+        tr = pm.cls(cname).methods.get(spec["transform"])
+        chk.require(tr is not None, f"{cname}.{spec['transform']} vanished")
+        _c11._pairing(_RLq(chk, "PAIR.scores", "AGREE.rotation"), tr)
     _acc(chk)
     chk.floor("SPACE.project", 6)
     chk.floor("AGREE", 6)
